@@ -48,8 +48,8 @@ def worker(k, jobs, wt, lock):
         if p.returncode != 0:
             res["checks"] = {"apply": p.stdout.decode()[-300:]}
         else:
-            for c in RELATED.get(pid, [pid]):
-                p = sh([os.path.join(v, "bin", "check"), c, "quick"], env=env)
+            for c in ([pid] if os.environ.get("PAR_EVAL_OWN_ONLY") else RELATED.get(pid, [pid])):
+                p = sh([os.path.join(v, "bin", "check"), c, os.environ.get("PAR_EVAL_TIER", "quick")], env=env)
                 out = p.stdout.decode("utf-8", "replace")
                 vl = [l for l in out.split("\n") if l.startswith("VIOLATION")]
                 if not vl:
